@@ -1,4 +1,5 @@
 import Ccp.Proofs.BraceTree
+import Ccp.Proofs.BraceOpts
 import Ccp.Props.C02
 import Ccp.Props.C03
 /-!
@@ -6,7 +7,9 @@ import Ccp.Props.C03
 
 Property theorems only.  Specification (`Stmt`, `flatten`, `treeParents`, `Layout`,
 `render`, well-formedness): `Ccp/Spec/Brace.lean`; model: `Ccp/Model/Brace.lean`; lemmas:
-`Ccp/Proofs/Brace.lean`.
+`Ccp/Proofs/Brace.lean`.  The last part (options `stop_width`, `semicolon_end`, `ignore_blank_lines`,
+the argument checks of the entry points) is about `Ccp/Model/BraceOpts.lean`, lemmas in
+`Ccp/Proofs/BraceOpts.lean`.
 -/
 namespace Ccp.C08
 open Ccp.Brace Ccp.Py Ccp.Tree
@@ -228,6 +231,204 @@ example : LayoutOk exL2 := by
 example : errOf (junosToIos (splitOn '\n'
     "interfaces\t{\n\tdescription \"up link\"; \t \n\t\tunit 0;{\t}\t\n".toList))
     = some .parseException := by
+  decide +kernel
+
+/-! ## options and argument checks around the conversion (`Ccp.Model.BraceOpts`)
+
+`BraceParse(config_txt, comment_delimiters, stop_width, semicolon_end)` called directly,
+`convert_junos_to_ios(input_list, stop_width, comment_delimiters, …)` with its ladder of argument
+checks, `CiscoConfParse.handle_ccp_brace_syntax`, and `CiscoConfParse(lines, syntax='junos',
+factory=…, ignore_blank_lines=…)`. -/
+
+/-- the model with options is the model above at the default option values -/
+theorem options_default (lines : List Str) (txt : Str) (w : Int) :
+    braceTextS false w txt = braceText (stopOf w) txt ∧
+    handleBrace .junos (.list lines) = liftE (junosToIos lines) ∧
+    junosParseWith false (.list lines) = liftE (junosParse lines) := by
+  have h2 : handleBrace .junos (.list lines) = liftE (junosToIos lines) := by
+    simp only [handleBrace, convertArgs, junosToIos, convertJunosToIos, Option.getD]
+    cases lines with
+    | nil => rfl
+    | cons l ls =>
+      have hd : ([['#']] : List Str).contains ['{'] = false ∧ ([['#']] : List Str).contains ['}'] = false := by decide
+      simp only [List.isEmpty_cons, hd.1, hd.2, Bool.or_false, Bool.false_eq_true, if_false, Bool.not_true,
+        reduceCtorEq]
+      rw [braceTextS_false]
+      rfl
+  refine ⟨braceTextS_false w txt, h2, ?_⟩
+  unfold junosParseWith junosParse
+  rw [h2]
+  cases junosToIos lines with
+  | error e => rfl
+  | ok out => rfl
+
+/-- `convert_junos_to_ios` once its arguments have the right types -/
+theorem convertArgs_typed (ls : List Str) (w : Int) (d : Option (List Str)) :
+    convertArgs { input := .list ls, stopWidth := some w, delims := some d, debugIsInt := true }
+      = if (ls.isEmpty || (d.getD []).contains ['{'] || (d.getD []).contains ['}']) = true
+        then .error (.base .valueError) else liftE (braceTextS false w (join ['\n'] ls)) := rfl
+
+/-- **Round trip for every indentation width.**  `stop_width = w` (any `int`; a negative one counts
+as 0): a well-formed tree in any layout converts to its preorder flattening with `w` blanks per
+enclosing block (`flattenW w`; `flattenW 4 = flatten`) — through `BraceParse(...)` called directly,
+whatever `comment_delimiters` is (it is never consulted), and through `convert_junos_to_ios` with
+any list of comment delimiters that holds no brace. -/
+theorem brace_roundtrip_any_width (w : Int) (L : Layout) (T : List Stmt) (hT : ListOk T) (hL : LayoutOk L)
+    (lines : List Str) (hne : lines ≠ []) (hl : join ['\n'] lines = render L T)
+    (ds : Option (List Str)) (dc : Option (List Str))
+    (hdc : (dc.getD []).contains ['{'] = false ∧ (dc.getD []).contains ['}'] = false) :
+    braceParseArgs { txt := some (render L T), delims := ds, stopWidth := w, semiEnd := false }
+      = .ok (flattenW (stopOf w) T) ∧
+    convertArgs { input := .list lines, stopWidth := some w, delims := some dc, debugIsInt := true }
+      = .ok (flattenW (stopOf w) T) ∧
+    flattenW 4 T = flatten T := by
+  have hb : braceTextS false w (render L T) = .ok (flattenW (stopOf w) T) := by
+    rw [braceTextS_false]; exact braceText_render_width _ L hL T hT
+  refine ⟨?_, ?_, flattenW_four T⟩
+  · simp [braceParseArgs, hb, liftE]
+  · have hemp : lines.isEmpty = false := by cases lines <;> simp_all
+    rw [convertArgs_typed, hemp, hdc.1, hdc.2, hl, hb]
+    rfl
+
+/-- **`semicolon_end`** — proved part: with `semicolon_end=True` the text of a statement is the
+stripped token, its semicolon included; with `False` it is the `cleanTok` of the theorems above.
+FULL STATEMENT, not proved (measured on every run by the correspondence and by the oracle, stream
+`opts`): `braceTextS true w (render L T)` is the flattening in which a statement keeps its `;`
+exactly when the layout wrote one. -/
+theorem semicolon_end_partial (t : Str) :
+    cleanTokS true t = strip t ∧ cleanTokS false t = cleanTok t := by
+  refine ⟨?_, cleanTokS_false t⟩
+  simp only [cleanTokS, Bool.not_true, Bool.false_and, Bool.false_eq_true, if_false]
+  unfold strip
+  have h1 : ∀ c, (rstrip (lstrip t)).head? = some c → isSpace c = false := strip_head_nonspace t
+  rw [lstrip_of_head _ h1]
+  unfold rstrip
+  have idem : ∀ l : Str, (l.dropWhile isSpace).dropWhile isSpace = l.dropWhile isSpace := by
+    intro l
+    induction l with
+    | nil => rfl
+    | cons a as ih =>
+      by_cases ha : isSpace a = true
+      · simp only [List.dropWhile_cons, ha, if_true]; exact ih
+      · simp [ha]
+  rw [List.reverse_reverse, idem]
+
+/-- **The argument checks of `convert_junos_to_ios`**, in the order of the code: an `input_list` that
+is not a `list` (a tuple too), a `stop_width` that is not an `int`, `comment_delimiters` that is not a
+list, a `debug` that is not an `int` — each `InvalidParameters`, the first one that applies; then an
+empty list or a brace among the comment delimiters — `ValueError`; only then the text is parsed. -/
+theorem convert_argument_checks (ls : List Str) (sw : Option Int) (dl : Option (Option (List Str))) (dbg : Bool)
+    (w : Int) (d : Option (List Str)) :
+    convertArgs { input := .tuple ls, stopWidth := sw, delims := dl, debugIsInt := dbg } = .error .invalidParameters ∧
+    convertArgs { input := .other, stopWidth := sw, delims := dl, debugIsInt := dbg } = .error .invalidParameters ∧
+    convertArgs { input := .list ls, stopWidth := none, delims := dl, debugIsInt := dbg } = .error .invalidParameters ∧
+    convertArgs { input := .list ls, stopWidth := some w, delims := none, debugIsInt := dbg } = .error .invalidParameters ∧
+    convertArgs { input := .list ls, stopWidth := some w, delims := some d, debugIsInt := false } = .error .invalidParameters ∧
+    (ls = [] ∨ (d.getD []).contains ['{'] = true ∨ (d.getD []).contains ['}'] = true →
+      convertArgs { input := .list ls, stopWidth := some w, delims := some d, debugIsInt := true }
+        = .error (.base .valueError)) ∧
+    (ls ≠ [] → (d.getD []).contains ['{'] = false → (d.getD []).contains ['}'] = false →
+      convertArgs { input := .list ls, stopWidth := some w, delims := some d, debugIsInt := true }
+        = liftE (braceTextS false w (join ['\n'] ls))) := by
+  refine ⟨rfl, rfl, rfl, rfl, rfl, ?_, ?_⟩
+  · intro h
+    rw [convertArgs_typed]
+    have : (ls.isEmpty || (d.getD []).contains ['{'] || (d.getD []).contains ['}']) = true := by
+      rcases h with h | h | h
+      · subst h; rfl
+      · rw [h]; simp
+      · rw [h]; simp
+    rw [if_pos this]
+  · intro h1 h2 h3
+    have hemp : ls.isEmpty = false := by cases ls <;> simp_all
+    rw [convertArgs_typed, hemp, h2, h3]
+    rfl
+
+/-- a `config_txt` that is not a `str` is refused by `BraceParse` (`NotImplementedError`) -/
+theorem braceParse_rejects_non_text (ds : Option (List Str)) (w : Int) (se : Bool) :
+    braceParseArgs { txt := none, delims := ds, stopWidth := w, semiEnd := se } = .error .notImplemented := rfl
+
+/-- **`handle_ccp_brace_syntax(tmp_lines, syntax)`**: a syntax that is not valid and a `tmp_lines`
+that is neither list nor tuple are refused (`InvalidParameters`, the syntax first); for the
+indentation syntaxes the lines pass through unchanged, list or tuple; for junos a list is
+converted (`convert_junos_to_ios(lines, comment_delimiters=['#'])`, four blanks per level) and a
+tuple — which this method lets through — is refused by the converter (known finding FC08a). -/
+theorem handleBrace_spec (ls : List Str) (tmp : Lines) (syn : Syn) :
+    handleBrace .invalid tmp = .error .invalidParameters ∧
+    handleBrace syn .other = .error .invalidParameters ∧
+    handleBrace .indented (.list ls) = .ok ls ∧ handleBrace .indented (.tuple ls) = .ok ls ∧
+    handleBrace .junos (.list ls) = liftE (junosToIos ls) ∧
+    handleBrace .junos (.tuple ls) = .error .invalidParameters := by
+  refine ⟨rfl, ?_, rfl, rfl, (options_default ls [] 0).2.1, rfl⟩
+  cases syn <;> rfl
+
+/-- **`ignore_blank_lines` and the factory.**  `junosParseWith ig` is the parse for
+`ignore_blank_lines = ig` (the factory only chooses the class of the line objects and has no
+parameter in the model).  Whatever is accepted: the texts are the converted lines, minus the blank
+ones when `ig` (a statement that is a lone `;` converts to a blank line), and the tree is a C03
+forest.  A tuple of lines is refused (FC08a). -/
+theorem junos_options (ig : Bool) (lines : List Str) (t : T) (h : junosParseWith ig (.list lines) = .ok t) :
+    ∃ out, junosToIos lines = .ok out ∧
+      t.texts = (if ig then out.filter (fun l => !(strip l).isEmpty) else out) ∧
+      t.parents = linkByIndent junosCfg t.texts ∧ Ccp.Tree.Forest t := by
+  unfold junosParseWith at h
+  rw [(options_default lines [] 0).2.1] at h
+  cases ho : junosToIos lines with
+  | error e => rw [ho] at h; cases h
+  | ok out =>
+    rw [ho] at h
+    simp only [liftE, Except.ok.injEq] at h
+    subst h
+    exact ⟨out, rfl, rfl, rfl, forest_of_inv ⟨rfl, linkByIndent_length _ _, linkByIndent_below _ _⟩⟩
+
+theorem junos_tuple_refused (ig : Bool) (ls : List Str) :
+    junosParseWith ig (.tuple ls) = .error .invalidParameters := rfl
+
+/-- **The whole parse of a rendered tree does not depend on `ignore_blank_lines`**: a well-formed
+statement never converts to a blank line, so both settings give texts = flattening, parents = tree
+parents (`junos_tree`). -/
+theorem junos_tree_any_options (ig : Bool) (L : Layout) (T : List Stmt) (hT : ListOk T) (hL : LayoutOk L)
+    (hc : ∀ l ∈ flatten T, isComment junosCfg l = false)
+    (lines : List Str) (hne : lines ≠ []) (hl : join ['\n'] lines = render L T) :
+    junosParseWith ig (.list lines) = .ok { texts := flatten T, parents := selfRoots 0 (treeParents T),
+                                            keep := (flatten T).map (fun _ => false) } := by
+  unfold junosParseWith
+  rw [(options_default lines [] 0).2.1, brace_roundtrip L T hT hL lines hne hl]
+  have hf : (flatten T).filter (fun l => !(strip l).isEmpty) = flatten T :=
+    List.filter_eq_self.mpr (fun l hl => by simp [flattenList_nonblank T 0 hT l hl])
+  cases ig <;> simp only [liftE, if_true, if_false, Bool.false_eq_true, hf, (flatten_parent_shared T hT hc).1]
+
+/-! ### non-vacuity of this part -/
+
+/-- the example tree with two blanks per level, and with none for a negative width -/
+example : (braceParseArgs { txt := some (render exL exT), delims := none, stopWidth := 2, semiEnd := false }).toOption =
+    some (["system", "  host-name r1", "  ports", "    console type vt100", "version 11.4R7.5", "# end"].map
+      String.toList) := by decide +kernel
+example : flattenW 2 exT = ["system", "  host-name r1", "  ports", "    console type vt100", "version 11.4R7.5",
+    "# end"].map String.toList := by decide +kernel
+example : stopOf (-3) = 0 ∧ flattenW 0 exT = ["system", "host-name r1", "ports", "console type vt100",
+    "version 11.4R7.5", "# end"].map String.toList := by decide +kernel
+/-- `semicolon_end=True` keeps the semicolons the layout wrote (the statement of the full theorem,
+on the example) -/
+example : (braceParseArgs { txt := some (render exL exT), delims := some [['#']], stopWidth := 4, semiEnd := true }).toOption =
+    some (["system", "    host-name r1;", "    ports", "        console type vt100;", "version 11.4R7.5;", "# end"].map
+      String.toList) := by decide +kernel
+/-- the argument ladder: a tuple is refused before a bad width is looked at; a brace among the
+comment delimiters is a `ValueError` -/
+example : convertArgs { input := .tuple ["a;".toList], stopWidth := none, delims := none, debugIsInt := false }
+      = .error .invalidParameters ∧
+    convertArgs { input := .list ["a;".toList], stopWidth := some 4, delims := some (some [['{']]), debugIsInt := true }
+      = .error (.base .valueError) ∧
+    (convertArgs { input := .list ["a;".toList], stopWidth := some 4, delims := some none, debugIsInt := true }).toOption
+      = some ["a".toList] := ⟨rfl, rfl, by decide +kernel⟩
+/-- a lone `;` converts to a blank line, which `ignore_blank_lines` drops -/
+example : ((junosParseWith false (.list ["a {".toList, ";".toList, "b;".toList, "}".toList])).toOption.map (·.texts))
+      = some ["a".toList, "    ".toList, "    b".toList] ∧
+    ((junosParseWith true (.list ["a {".toList, ";".toList, "b;".toList, "}".toList])).toOption.map (·.texts))
+      = some ["a".toList, "    b".toList] ∧
+    ((junosParseWith true (.list ["a {".toList, ";".toList, "b;".toList, "}".toList])).toOption.map (·.parents))
+      = some [0, 0] := by decide +kernel
+example : (junosParseWith true (.list (splitOn '\n' (render exL exT)))).toOption.map (·.parents) = some [0, 0, 0, 2, 4, 5] := by
   decide +kernel
 
 end Ccp.C08
